@@ -66,6 +66,10 @@ const SHAPES: &[&str] = &[
     "p(Y0, $t) :- $G.",
     "{p($A, Y0)} :- $G, not r($t).",
     ":- $G, not r(Y0, $t), not not r($A).",
+    // literals of large arity (the fresh names Z10, Z11 sort before Z2)
+    "p :- $G, w($A, 1, 2, 3, 4, 5, 6, 7, 8, 9, $t, $A).",
+    "w($A, 1, 2, 3, 4, 5, 6, 7, 8, 9, $t) :- $G.",
+    ":- $G, not w(0, 1, 2, 3, 4, 5, 6, 7, 8, $A, $t).",
     // one predicate symbol at two arities
     "q($t) :- $G, q($A, $A).",
     "p($t) :- $G, not p($t, $A), not not p.",
@@ -176,6 +180,30 @@ fn universe(r: &asp::Rule) -> Vec<GroundAtom> {
     let inner = inner();
     let mut out = Vec::new();
     for p in r.predicates() {
+        if p.arity > 3 {
+            // large arity: the tuples the literals of the rule themselves denote under INNER assignments, and each of them with
+            // two positions exchanged (so that an interpretation can tell a permuted atom from the right one)
+            let vars: Vec<String> = r.variables().into_iter().map(|v| v.0).collect();
+            let mut lits: Vec<&asp::Atom> = Vec::new();
+            if let asp::Head::Basic(a) | asp::Head::Choice(a) = &r.head { lits.push(a); }
+            for f in &r.body.formulas { if let asp::AtomicFormula::Literal(l) = f { lits.push(&l.atom); } }
+            let mut idx = vec![0usize; vars.len()];
+            loop {
+                let s: aspsem::Asg = vars.iter().enumerate().map(|(i, v)| (v.clone(), inner[idx[i]].clone())).collect();
+                for a in lits.iter().filter(|a| a.predicate_symbol == p.symbol && a.terms.len() == p.arity) {
+                    for t in aspsem::tuples(&a.terms, &s).into_iter().take(4) {
+                        for (i, j) in [(1usize, p.arity - 1), (2, p.arity - 2), (0, 1)] { let mut u = t.clone(); u.swap(i, j); out.push((p.symbol.clone(), u)); }
+                        out.push((p.symbol.clone(), t));
+                    }
+                }
+                let mut k = 0;
+                loop { if k == vars.len() { break; } idx[k] += 1; if idx[k] < inner.len() { break; } idx[k] = 0; k += 1; }
+                if k == vars.len() { break; }
+            }
+            out.sort(); out.dedup();
+            if out.len() > 40 { out.truncate(40); }
+            continue;
+        }
         let mut idx = vec![0usize; p.arity];
         loop {
             out.push((p.symbol.clone(), idx.iter().map(|i| inner[*i].clone()).collect()));
